@@ -355,3 +355,302 @@ Proof.
       unfold increment_crash_counter in H. rewrite Ecl in H.
       eapply (Hinc eq_refl); [|exact H]. apply csub_tasks; [exact Hs1 | reflexivity].
 Qed.
+
+(** The tasks handed to the crash rule were running, and each is listed once. *)
+Definition Rinv (c0 c : core) : Prop :=
+  forall id t', find_task (c_tasks c) id = Some t' -> is_run (t_state t') ->
+    exists t, find_task (c_tasks c0) id = Some t /\ t_state t = t_state t'.
+
+Lemma Rinv_upd c0 c x t :
+  Rinv c0 c -> find_task (c_tasks c) (t_id x) = Some t -> (is_run (t_state x) -> t_state x = t_state t) -> Rinv c0 (upd_task c x).
+Proof.
+  intros R Hf Hx id t' Hf' Hr. unfold upd_task in Hf'. cbn in Hf'. rewrite find_set_task in Hf'.
+  destruct (tid_eqb id (t_id x)) eqn:E.
+  - inversion Hf'; subst t'. apply tid_eqb_eq in E. subst id. destruct (R _ _ Hf) as (t0 & A & B); [rewrite <- (Hx Hr); exact Hr|].
+    exists t0. split; [exact A | rewrite B; symmetry; apply Hx; exact Hr].
+  - apply R; assumption.
+Qed.
+
+Lemma not_run_waiting n : ~ is_run (Waiting n).
+Proof. intros [(w & rv & H)|(ws & H)]; discriminate. Qed.
+
+Lemma lost_prefilled_Rinv c0 l : forall c c', Rinv c0 c -> lost_prefilled c l = Ok c' -> Rinv c0 c'.
+Proof.
+  induction l as [|id r IH]; cbn [lost_prefilled]; intros c c' R H; [inversion H; subst; exact R|].
+  apply bind_ok in H. destruct H as (t & Ht & H). apply get_task_find in Ht. destruct (find_task_some _ _ _ Ht) as [_ Hid].
+  apply bind_ok in H. destruct H as (q & _ & H). apply bind_ok in H. destruct H as (q' & _ & H).
+  eapply IH; [|exact H].
+  change (Rinv c0 (upd_task c (with_state (with_inst t (t_inst t + 1)) (Waiting 0)))) .
+  eapply Rinv_upd; [exact R | cbn; rewrite Hid; exact Ht | intros Hr; exfalso; exact (not_run_waiting _ Hr)].
+Qed.
+
+Lemma lost_assigned_running c0 l : forall c running ret c' running' ret',
+  Rinv c0 c -> NoDup running ->
+  (forall x, In x running -> was_running c0 x /\ forall t, find_task (c_tasks c) x = Some t -> ~ is_run (t_state t)) ->
+  lost_assigned c l running ret = Ok (c', running', ret') ->
+  NoDup running' /\ forall x, In x running' -> was_running c0 x.
+Proof.
+  induction l as [|id r IH]; cbn [lost_assigned]; intros c running ret c' running' ret' R Hn Hr H.
+  - inversion H; subst. split; [exact Hn | intros x Hx; apply Hr; exact Hx].
+  - apply bind_ok in H. destruct H as (t & Ht & H). apply get_task_find in Ht. destruct (find_task_some _ _ _ Ht) as [_ Hid].
+    apply bind_ok in H. destruct H as ([[c1 t1] running1] & H1 & H). apply bind_ok in H. destruct H as ([qs rt] & _ & H).
+    (* what the case analysis yields *)
+    assert (Hc : c_tasks c1 = c_tasks c /\ t_id t1 = t_id t /\ ~ is_run (t_state t1) /\
+                 (running1 = running \/ (running1 = running ++ [id] /\ is_run (t_state t)))).
+    { destruct (t_state t) eqn:Est; try (inversion H1; subst; repeat split; try reflexivity; [apply not_run_waiting | left; reflexivity]).
+      - destruct (find_redirect _ id); inversion H1; subst. repeat split; try reflexivity; [|left; reflexivity].
+        rewrite Est. intros [(w0 & rv & E)|(ws & E)]; discriminate.
+      - inversion H1; subst. repeat split; try reflexivity; [apply not_run_waiting|].
+        right. split; [reflexivity|]. left. eauto. }
+    destruct Hc as (Et & Ei & Hnr & Hrun).
+    set (c2 := upd_task c1 (with_inst t1 (t_inst t1 + 1))) in *.
+    assert (R1 : Rinv c0 c1) by (intros x t' Hx; rewrite Et in Hx; apply R; exact Hx).
+    assert (R2 : Rinv c0 c2).
+    { eapply Rinv_upd; [exact R1 | cbn; rewrite Ei, Hid, Et; exact Ht | intros Hx; exfalso; apply Hnr; exact Hx]. }
+    assert (Hfind2 : forall x, find_task (c_tasks c2) x = if tid_eqb x id then Some (with_inst t1 (t_inst t1 + 1)) else find_task (c_tasks c) x).
+    { intros x. unfold c2, upd_task. cbn. rewrite find_set_task. cbn. rewrite Ei, Hid, Et. reflexivity. }
+    eapply (IH (with_queues c2 qs)); [exact R2 | | | exact H].
+    + destruct Hrun as [->|[-> Hrt]]; [exact Hn|].
+      rewrite <- (app_nil_r (running ++ [id])), <- app_assoc. cbn.
+      (* id is running now, the collected ones are not *)
+      assert (~ In id running) as Hni by (intros Hin; destruct (Hr _ Hin) as [_ Hx]; exact (Hx _ Ht Hrt)).
+      clear -Hn Hni. induction running as [|h tl IHr]; cbn; [constructor; [intros [] | constructor]|].
+      inversion Hn; subst. constructor.
+      * rewrite in_app_iff. cbn. intros [X|[X|[]]]; [contradiction | subst; apply Hni; left; reflexivity].
+      * apply IHr; [assumption | intros X; apply Hni; right; exact X].
+    + intros x Hx. cbn [c_tasks with_queues]. rewrite Hfind2.
+      destruct Hrun as [->|[-> Hrt]].
+      * destruct (Hr _ Hx) as [A B]. split; [exact A|]. intros tx. destruct (tid_eqb x id); [intros E; inversion E; subst; exact Hnr | apply B].
+      * apply in_app_iff in Hx. destruct Hx as [Hx|[<-|[]]].
+        -- destruct (Hr _ Hx) as [A B]. split; [exact A|]. intros tx. destruct (tid_eqb x id); [intros E; inversion E; subst; exact Hnr | apply B].
+        -- split.
+           ++ destruct (R _ _ Ht Hrt) as (t0 & A & B). exists t0. split; [exact A | rewrite B; exact Hrt].
+           ++ intros tx. rewrite tid_eqb_refl. intros E; inversion E; subst; exact Hnr.
+Qed.
+
+Definition LR (fail : bool) (c c' : core) : Prop :=
+  forall id a', cget c' id = Some a' -> exists a, cget c id = Some a /\ snd a' = snd a /\
+    (fst a' = fst a \/ (fst a' = fst a + 1 /\ fail = true /\ was_running c id)).
+
+Lemma Rinv_refl c : Rinv c c.
+Proof. intros id t' H _. eauto. Qed.
+
+Lemma on_remove_worker_LR s w reason a p t s' :
+  TS (core_of s) -> on_remove_worker s w reason a p t = Ok s' -> LR (reason_is_failure reason) (core_of s) (core_of s').
+Proof.
+  intros Hs H. unfold on_remove_worker in H.
+  destruct (find_worker _ w) as [wk|]; [|discriminate].
+  apply bind_ok in H. destruct H as ([[c2 running] retracted] & Hr & H).
+  set (c0 := with_workers (core_of s) (del_worker (c_workers (core_of s)) w)) in *.
+  assert (Hs0 : TS c0) by exact Hs.
+  assert (E2 : ckeys c2 = ckeys (core_of s) /\ NoDup running /\ forall x, In x running -> was_running (core_of s) x).
+  { destruct (w_assign wk).
+    - destruct (negb _); [discriminate|]. apply bind_ok in Hr. destruct Hr as (c1 & Hp & Hr).
+      pose proof (lost_prefilled_pframe _ ci ci_state ci_inst _ _ _ Hs0 Hp) as E1.
+      split; [rewrite (lost_assigned_pframe _ ci ci_state ci_inst _ _ _ _ _ _ _ (PS_keys _ ci _ _ E1 Hs0) Hr); exact E1|].
+      eapply (lost_assigned_running c0 _ c1 [] []); [eapply lost_prefilled_Rinv; [apply Rinv_refl | exact Hp] | constructor | intros x [] | exact Hr].
+    - apply bind_ok in Hr. destruct Hr as (tk & Ht & Hr). apply get_task_find in Ht.
+      destruct (t_state tk) eqn:Est; try discriminate. destruct ws as [|w0 rest]; [discriminate|].
+      destruct (N.eqb w w0).
+      + apply bind_ok in Hr. destruct Hr as (c1 & Hc1 & Hr). apply bind_ok in Hr. destruct Hr as ([qs ret] & _ & Hr).
+        inversion Hr; subst.
+        pose proof (reset_mn_all_tasks _ _ _ Hc1) as T1. split; [|split].
+        * change (ckeys (upd_task c1 (with_inst (with_state tk (Waiting 0)) (t_inst tk + 1))) = ckeys (core_of s)).
+          transitivity (ckeys c1); [|unfold pkeys; rewrite T1; reflexivity].
+          apply (upd_task_pframe _ ci c1 t0 tk); [unfold TS; rewrite T1; exact Hs0 | rewrite T1; exact Ht | reflexivity | reflexivity].
+        * constructor; [intros [] | constructor].
+        * intros x [<-|[]]. exists tk. split; [exact Ht|]. right. rewrite Est. eauto.
+      + inversion Hr; subst. split; [|split; [constructor | intros x []]].
+        apply (upd_task_pframe _ ci c0 t0 tk); [exact Hs0 | exact Ht | reflexivity | reflexivity]. }
+  destruct E2 as (E2 & Hnd & Hrun).
+  destruct (negb (perm_of_set t _)); [discriminate|].
+  apply bind_ok in H. destruct H as (s3 & H3 & H). apply bind_ok in H. destruct H as (s4 & H4 & H).
+  apply bind_ok in H. destruct H as (s6 & H6 & H). apply bind_ok in H. destruct H as (s7 & H7 & H). inversion H; subst.
+  match type of H3 with lost_retracting ?sx _ _ = _ => set (s2 := sx) in * end.
+  assert (Hs2 : TS (core_of s2)) by (eapply PS_keys; [exact E2 | exact Hs]).
+  pose proof (lost_retracting_PK _ ci ci_state ci_inst _ _ _ _ Hs2 H3) as K3. unfold PK in K3.
+  assert (Hs3 : TS (core_of s3)) by (eapply PS_keys; [exact K3 | exact Hs2]).
+  pose proof (process_retracted_PK _ ci ci_state _ _ _ Hs3 H4) as K4. unfold PK in K4.
+  assert (Hs4 : TS (core_of s4)) by (eapply PS_keys; [exact K4 | exact Hs3]).
+  destruct (process_worker_lost_active _ _ _ _ _ H6) as [C6 _]. unfold core_same in C6.
+  assert (K6 : ckeys (core_of s6) = ckeys (core_of s)).
+  { rewrite C6. change (ckeys (core_of s4) = ckeys (core_of s)). rewrite K4, K3. exact E2. }
+  assert (Hs6 : TS (core_of s6)) by (eapply PS_keys; [exact K6 | exact Hs]).
+  destruct (lost_fail_running_CR _ _ _ _ Hnd Hs6 H7) as [_ R7].
+  intros id a' Ha. change (cget (core_of s7) id = Some a') in Ha.
+  destruct (R7 id a' Ha) as (a0 & A1 & A2 & A3). rewrite (cframe _ _ K6) in A1.
+  exists a0. split; [exact A1 | split; [exact A2|]].
+  destruct A3 as [A3|(A3 & A4 & A5)]; [left; exact A3 | right; split; [exact A3 | split; [exact A5 | apply Hrun; exact A4]]].
+Qed.
+
+(** * Submits *)
+Lemma get_or_create_rq_tasks s r : c_tasks (core_of (fst (get_or_create_rq s r))) = c_tasks (core_of s).
+Proof. unfold get_or_create_rq. destruct (rq_index _ r 0); reflexivity. Qed.
+
+Lemma cext_refl c : cext c c. Proof. intros id a H; exact H. Qed.
+Lemma cext_tasks c c' : c_tasks c' = c_tasks c -> cext c c'.
+Proof. intros E id a. unfold cget. rewrite E. auto. Qed.
+Lemma cext_trans c1 c2 c3 : cext c1 c2 -> cext c2 c3 -> cext c1 c3.
+Proof. intros A B id a H. apply B, A, H. Qed.
+
+Lemma submit_tail_cext s4 jid ids tasks s' :
+  (do j <- hq_get_job s4 jid 222;
+   do j' <- attach_ids j ids;
+   do s6 <- on_new_tasks (hq_set_job s4 j') tasks;
+   submit_ok_resp s6 jid) = Ok s' -> cext (core_of s4) (core_of s').
+Proof.
+  intros H. apply bind_ok in H. destruct H as (j & _ & H). apply bind_ok in H. destruct H as (j' & _ & H).
+  apply bind_ok in H. destruct H as (s6 & H6 & H).
+  unfold submit_ok_resp in H. apply bind_ok in H. destruct H as (jx & _ & H). inversion H; subst.
+  exact (on_new_tasks_cext _ _ _ H6).
+Qed.
+
+Lemma handle_submit_array_cext s jobsel ids entries rq prio cl tlim mf s' :
+  handle_submit_array s jobsel ids entries rq prio cl tlim mf = Ok s' -> cext (core_of s) (core_of s').
+Proof.
+  intros H. unfold handle_submit_array in H.
+  match type of H with (match ?x with Some _ => _ | None => _ end) = _ => destruct x end; [inversion H; subst; apply cext_refl|].
+  apply bind_ok in H. destruct H as ([acc s1] & Hr & H).
+  assert (E1 : core_of s1 = core_of s).
+  { destruct jobsel as [jid|]; [|inversion Hr; reflexivity].
+    destruct (find_job (hq_jobs s) jid) as [j|]; [|inversion Hr; subst; reflexivity].
+    destruct (negb (j_open j)); inversion Hr; subst; reflexivity. }
+  destruct acc as [[[jid is_new] ids']|].
+  - cbv zeta in H.
+    match type of H with context [get_or_create_rq ?sx rq] => set (s3 := sx) in *; destruct (get_or_create_rq s3 rq) as [s4 rqi] eqn:Erq end.
+    pose proof (get_or_create_rq_tasks s3 rq) as T4. rewrite Erq in T4. cbn [fst] in T4.
+    assert (T3 : c_tasks (core_of s3) = c_tasks (core_of s)) by (subst s3; destruct is_new; (transitivity (c_tasks (core_of s1)); [reflexivity | rewrite E1; reflexivity])).
+    eapply cext_trans; [apply cext_tasks; rewrite T4; exact T3 | eapply submit_tail_cext; exact H].
+  - apply cext_tasks.
+    destruct jobsel; [match type of H with (match ?x with Some _ => _ | None => _ end) = _ => destruct x end|];
+      injection H as Hx; rewrite <- Hx; (transitivity (c_tasks (core_of s1)); [reflexivity | rewrite E1; reflexivity]).
+Qed.
+
+Lemma fold_rqs_tasks rqs : forall s l s4 rqis,
+  fold_left (fun acc r => let '(s, l) := acc in let '(s', i) := get_or_create_rq s r in (s', l ++ [i])) rqs (s, l) = (s4, rqis) ->
+  c_tasks (core_of s4) = c_tasks (core_of s).
+Proof.
+  induction rqs as [|r rest IH]; cbn [fold_left]; intros s l s4 rqis H; [inversion H; reflexivity|].
+  destruct (get_or_create_rq s r) as [s1 i] eqn:E. rewrite (IH _ _ _ _ H).
+  pose proof (get_or_create_rq_tasks s r) as T. rewrite E in T. exact T.
+Qed.
+
+Lemma handle_submit_graph_cext s jobsel rqs ts mf s' :
+  handle_submit_graph s jobsel rqs ts mf = Ok s' -> cext (core_of s) (core_of s').
+Proof.
+  intros H. unfold handle_submit_graph in H.
+  apply bind_ok in H. destruct H as (v1 & _ & H).
+  match type of H with (match ?x with Some _ => _ | None => _ end) = _ => destruct x end; [inversion H; subst; apply cext_refl|].
+  apply bind_ok in H. destruct H as ([acc s1] & Hr & H).
+  assert (E1 : core_of s1 = core_of s).
+  { destruct jobsel as [jid|]; [|inversion Hr; reflexivity].
+    destruct (find_job (hq_jobs s) jid) as [j|]; [|inversion Hr; subst; reflexivity].
+    destruct (negb (j_open j)); inversion Hr; subst; reflexivity. }
+  destruct acc as [[jid is_new]|].
+  - cbv zeta in H.
+    match type of H with context [fold_left ?f rqs (?sx, [])] => set (s3 := sx) in *; destruct (fold_left f rqs (s3, [])) as [s4 rqis] eqn:Erq end.
+    pose proof (fold_rqs_tasks _ _ _ _ _ Erq) as T4.
+    assert (T3 : c_tasks (core_of s3) = c_tasks (core_of s)) by (subst s3; destruct is_new; (transitivity (c_tasks (core_of s1)); [reflexivity | rewrite E1; reflexivity])).
+    apply bind_ok in H. destruct H as (j & Hj & H). apply bind_ok in H. destruct H as (j' & Ha & H).
+    apply bind_ok in H. destruct H as (tasks & Hg & H).
+    eapply cext_trans; [apply cext_tasks; rewrite T4; exact T3|].
+    eapply (submit_tail_cext s4 jid (map gt_id ts) tasks). rewrite Hj. cbn [bind]. rewrite Ha. cbn [bind]. exact H.
+  - inversion H; subst. apply cext_tasks. rewrite E1. reflexivity.
+Qed.
+
+(** * One step of the whole system *)
+Definition lost_failure (o : op) : bool :=
+  match o with OpLost _ reason _ _ _ => reason_is_failure reason | _ => false end.
+
+Lemma LR_csub f c c' : csub c c' -> LR f c c'.
+Proof. intros [_ A] id a' H. exists a'. split; [apply A; exact H | split; [reflexivity | left; reflexivity]]. Qed.
+
+Theorem crash_rule_step s o s' outs :
+  TS (s_core s) -> step s o = Ok (s', outs) ->
+  forall id t t', find_task (c_tasks (s_core s)) id = Some t -> find_task (c_tasks (s_core s')) id = Some t' ->
+    t_climit t' = t_climit t /\
+    (t_crash t' = t_crash t \/ (t_crash t' = t_crash t + 1 /\ lost_failure o = true /\ is_run (t_state t))).
+Proof.
+  intros Hs H id t t' Hf Hf'.
+  (* every operation is one of: survivors keep their info / old tasks keep their info / the crash rule *)
+  assert (Hcases : csub (s_core s) (s_core s') \/ cext (s_core s) (s_core s') \/ LR (lost_failure o) (s_core s) (s_core s')).
+  { change (s_core s') with (core_of (s', outs)). change (s_core s) with (core_of (s, @nil out)) in *.
+    destruct o; cbn [step] in H.
+    - right. left. apply cext_tasks. unfold on_new_worker in H. inversion H; subst. reflexivity.
+    - right. right. destruct (find_proc _ w); [|discriminate]. eapply on_remove_worker_LR; [exact Hs | exact H].
+    - right. left. eapply handle_submit_array_cext; exact H.
+    - right. left. eapply handle_submit_graph_cext; exact H.
+    - right. left. apply cext_tasks. unfold handle_open in H. inversion H; subst. reflexivity.
+    - right. left. apply cext_tasks. unfold handle_close in H.
+      destruct (find_job _ j) as [jb|]; [|inversion H; subst; reflexivity].
+      destruct (j_open jb); [|inversion H; subst; reflexivity].
+      apply bind_ok in H. destruct H as (s1 & H1 & H). inversion H; subst.
+      destruct (check_termination_jt _ _ _ H1) as [C1 _]. unfold core_same in C1. change (c_tasks (core_of s1) = c_tasks (core_of (s, []))). rewrite C1. reflexivity.
+    - left. unfold handle_cancel in H. destruct (find_job _ j) as [jb|]; [|inversion H; subst; apply csub_tasks; auto].
+      destruct (non_finished_task_ids jb) eqn:En; [inversion H; subst; apply csub_tasks; auto|]. rewrite <- En in H.
+      apply bind_ok in H. destruct H as (s1 & H1 & H). apply bind_ok in H. destruct H as (al & _ & H).
+      apply bind_ok in H. destruct H as (s2 & H2 & H). inversion H; subst.
+      destruct (set_cancel_state_active _ _ _ _ H2) as [C2 _]. unfold core_same in C2.
+      change (csub (core_of (s, [])) (core_of s2)). rewrite C2. eapply on_cancel_tasks_csub; [exact Hs | exact H1].
+    - right. left. apply cext_tasks. unfold handle_forget in H. destruct (find_job _ j) as [jb|]; [|inversion H; subst; reflexivity].
+      apply bind_ok in H. destruct H as (na & _ & H). destruct (negb (j_open jb) && na); inversion H; subst; reflexivity.
+    - right. left. apply cext_tasks. destruct (find_proc _ w) as [p|]; [|discriminate]. destruct (p_down p); [discriminate|].
+      inv_binds H. inversion H; subst. reflexivity.
+    - destruct (find_proc _ w) as [p|]; [|discriminate]. destruct (p_up p) as [|m rest]; [discriminate|]. destruct m.
+      + left. unfold on_task_update in H. apply bind_ok in H. destruct H as ([s1 need] & Hu & H).
+        match type of Hu with apply_updates ?s0 _ _ _ = _ => pose proof (apply_updates_csub _ s0 _ _ _ _ Hs Hu) as S1 end.
+        destruct (need && _); inversion H; subst; exact S1.
+      + left. match type of H with on_retract_response ?s0 _ _ = _ =>
+          pose proof (on_retract_response_PK _ ci ci_state s0 _ _ _ Hs H) as E end.
+        apply csub_frame; [exact Hs | exact E].
+    - destruct (c_flag (s_core s)); [|discriminate]. left.
+      apply csub_frame; [exact Hs | exact (run_scheduling_PK _ ci ci_state _ _ _ Hs H)].
+    - right. left. apply cext_tasks. destruct (find_proc _ w) as [p|]; [|discriminate]. inv_binds H. inversion H; subst. reflexivity.
+    - right. left. apply cext_tasks. destruct (find_proc _ w) as [p|]; [|discriminate]. inversion H; subst. reflexivity.
+    - right. left. apply cext_tasks. inversion H; subst. reflexivity. }
+  assert (Ha : cget (s_core s) id = Some (ci t)) by (unfold cget; rewrite Hf; reflexivity).
+  assert (Ha' : cget (s_core s') id = Some (ci t')) by (unfold cget; rewrite Hf'; reflexivity).
+  destruct Hcases as [[_ S]|[S|S]].
+  - apply S in Ha'. rewrite Ha in Ha'. inversion Ha'. split; [congruence | left; congruence].
+  - apply S in Ha. rewrite Ha' in Ha. inversion Ha. split; [congruence | left; congruence].
+  - destruct (S _ _ Ha') as (a0 & A1 & A2 & A3). rewrite Ha in A1. inversion A1; subst a0. cbn in A2, A3.
+    split; [exact A2|]. destruct A3 as [A3|(A3 & A4 & (t0 & B1 & B2))]; [left; exact A3|].
+    right. split; [exact A3 | split; [exact A4|]]. rewrite Hf in B1. inversion B1; subst. exact B2.
+Qed.
+
+(** For every reachable state. *)
+From HQ Require Import Cluster.ProofsFinal Cluster.BijFinal.
+
+Theorem crash_counter_rule ops o reserve maxfill s outs s' outs' :
+  Forall op_wf ops -> run (init_sys reserve maxfill) ops = Ok (s, outs) -> step s o = Ok (s', outs') ->
+  forall id t t', find_task (c_tasks (s_core s)) id = Some t -> find_task (c_tasks (s_core s')) id = Some t' ->
+    t_climit t' = t_climit t /\
+    (t_crash t' = t_crash t \/ (t_crash t' = t_crash t + 1 /\ lost_failure o = true /\ is_run (t_state t))).
+Proof.
+  intros Hwf Hr Hst.
+  assert (HC0 : CB (init_sys reserve maxfill, [])).
+  { constructor; [constructor | intros id cs x [] | ]. intros x. split; [intros [] | intros (l & Hl & _); discriminate]. }
+  assert (Hok0 : HOK (s_hq (init_sys reserve maxfill))) by (intros j []).
+  assert (F0 : fresh (init_sys reserve maxfill, [])) by (intros j []).
+  pose proof (run_CB _ _ _ _ Hok0 F0 Hwf HC0 Hr) as HC.
+  eapply crash_rule_step; [|exact Hst]. apply TS_CS. exact (cb_s _ HC).
+Qed.
+
+(** Non-vacuity: a task running on a worker that is lost for a failure reason. *)
+Definition crash_rq : rqdef := mkRq 0 [10000; 0; 0].
+Definition crash_ops : list op :=
+  [OpConnect [20000; 0; 0] 0;
+   OpSubmit None [] None crash_rq 0%Z (CMax 3) false None;
+   OpSched (mkSol [(0, 0, [(1, 1)])] [] [1] []);
+   OpDDown 1 []; OpDDown 1 []; OpDUp 1].
+Definition crash_last : op := OpLost 1 1 [(1, 0)] [] [(1, 0)].
+
+Lemma crash_example : Forall op_wf crash_ops /\ exists s outs s' outs' t t',
+  run (init_sys 0 2) crash_ops = Ok (s, outs) /\ step s crash_last = Ok (s', outs') /\
+  find_task (c_tasks (s_core s)) (1, 0) = Some t /\ find_task (c_tasks (s_core s')) (1, 0) = Some t' /\
+  t_state t = Running 1 0 /\ t_crash t = 0 /\ t_crash t' = 1.
+Proof.
+  split; [repeat constructor|].
+  do 6 eexists. split; [vm_compute; reflexivity|]. split; [vm_compute; reflexivity|].
+  split; [vm_compute; reflexivity|]. split; [vm_compute; reflexivity|]. repeat split; reflexivity.
+Qed.
